@@ -316,8 +316,10 @@ class Bicomplex(object):
         return Bicomplex(np.log1p(self.mod_c()), self.arg_c1p())
 
     def expm1(self):
-        expz1 = np.expm1(self.z1)
-        return Bicomplex(expz1 * np.cos(self.z2), expz1 * np.sin(self.z2))
+        # exp(z1) * cos(z2) - 1 = expm1(z1) * cos(z2) - 2 * sin(z2 / 2)**2
+        z1 = np.expm1(self.z1) * np.cos(self.z2) - 2 * np.sin(0.5 * self.z2) ** 2
+        z2 = np.exp(self.z1) * np.sin(self.z2)
+        return Bicomplex(z1, z2)
 
     def exp(self):
         expz1 = np.exp(self.z1)
